@@ -2,6 +2,7 @@ package main
 
 import (
 	"fmt"
+	"sync"
 	"net"
 	"net/netip"
 	"strconv"
@@ -760,6 +761,23 @@ func (g *gen) exhaustive(r *lib.Run, depth int) {
 
 func generate(r *lib.Run) {
 	g := &gen{rng: r.Rand()}
+	// ARP hunt histories with real 6 s ticker periods run beside the rest of the generation
+	var timed sync.WaitGroup
+	nTimed, nTicks := 1, 1
+	if r.Thorough() {
+		nTimed, nTicks = 12, 2
+	}
+	tg := &gen{rng: g.rng.Fork()}
+	for i := 0; i < nTimed; i++ {
+		toks := tg.hunt4History(3+tg.rng.Intn(4), nTicks)
+		timed.Add(1)
+		go func() {
+			defer timed.Done()
+			r.Do("ka", toks...)
+			r.Stat("class.hunt4timed", 1)
+		}()
+	}
+	defer timed.Wait()
 	scale := 2
 	if r.Thorough() {
 		scale = 40
@@ -786,6 +804,11 @@ func generate(r *lib.Run) {
 	for i := 0; i < 20*scale; i++ {
 		r.Do("k6", g.huntHistory(1+g.rng.Intn(5))...)
 		r.Stat("class.hunt6", 1)
+	}
+	// hunt list of the ARP spoofer without waiting for the ticker (first announcement, StopHunt, spoofed replies)
+	for i := 0; i < 20*scale; i++ {
+		r.Do("ka", g.hunt4History(1+g.rng.Intn(6), 0)...)
+		r.Stat("class.hunt4", 1)
 	}
 	classes := []struct {
 		name  string
